@@ -6,6 +6,7 @@ import (
 	"sort"
 	"strconv"
 	"strings"
+	"time"
 
 	"sigs.k8s.io/controller-runtime/pkg/client"
 
@@ -181,8 +182,20 @@ func execute(ctl *controllersEnv, c *Case) {
 	srv := newAPIServer(ctl.scheme, objs...)
 	proc := &binderProc{srv: srv, ctl: ctl}
 	proc.start()
-	for _, st := range c.Steps {
-		st.Out = proc.runStep(st)
+	for i, st := range c.Steps {
+		done := make(chan int, 1)
+		go func() { done <- proc.runStep(st) }()
+		select {
+		case st.Out = <-done:
+		case <-time.After(15 * time.Second):
+			// the real code blocks (a lock that is never released): report it as an
+			// outcome the model never produces and give the case up
+			st.Out = 3
+			st.Store = nil
+			c.Steps = c.Steps[:i+1]
+			c.Note += " HANG at step " + strconv.Itoa(i)
+			return
+		}
 		st.Store = srv.snapshot(c.MF)
 	}
 }
